@@ -30,7 +30,11 @@ use serde::{Deserialize, Serialize};
 /// assert_eq!(msg.control_value(), None);
 /// ```
 #[derive(Copy, Clone, Eq, PartialEq, Hash, Debug, derive_more::Into)]
-#[cfg_attr(feature = "serde", derive(Serialize, Deserialize))]
+#[cfg_attr(
+    feature = "serde",
+    derive(Serialize, Deserialize),
+    serde(try_from = "(u8, U7, U7)")
+)]
 pub struct RawShortMessage((u8, U7, U7));
 
 impl ShortMessageFactory for RawShortMessage {
